@@ -752,7 +752,7 @@ def _decode_floats(encoded):
     # points to a contiguous array
     values = np.empty((len(items),) + shape[:-item_rank])
     for k, item in enumerate(items):
-        values[k] = _decode_floats(item)
+        values[k] = _decode_floats(item).reshape(shape[:-item_rank])
 
     # Fix the item axes and make contiguous
     return np.moveaxis(values, 0, -1).copy().reshape(shape)
